@@ -397,6 +397,10 @@ def register(ck, tag, driver, params, builder):
 
 
 def builder_for(ck, driver, params):
+    if driver in ("closest_local", "lookup_cap"):
+        import c02_reply
+
+        return c02_reply.builder_for(ck, driver, params)
     if driver == "engine_ops":
         return lambda s, obs: build_engine_ops(ck, params["layout"], params["t"], params["B"], params["maxcount"], params["fail"], s, obs, params.get("readd", False), params.get("evict", False), params.get("reply", False))
     if driver == "closest":
@@ -416,6 +420,9 @@ def run(tier):
         ck.guarded(tag, lambda params=params, tag=tag: register(ck, tag, "mutation", params, builder_for(ck, "mutation", params)))
     for params, tag in engine_cases():
         ck.guarded(tag, lambda params=params, tag=tag: register(ck, tag, "engine_ops", params, builder_for(ck, "engine_ops", params)))
+    import c02_reply
+
+    c02_reply.register_all(ck, tier)
     ck.run_queries()
     import kanicheck
 
@@ -427,10 +434,14 @@ def run(tier):
                      "add_node / remove_node of an arbitrary id in a concrete bucket (or the local id) on such tables: " + "; ".join(str(c) for c in mutation_cases(tier)),
                      "Kani: bucket index kernel for all id pairs (unwind 258)"]
     ck.out.bounds.append("async engine API on one layout ([3,7], target 3, B=2, count<=2): DhtCoreEngine::select_query_peers with trust selection disabled; handle_node_failure(x) then find_nodes (also serves C16: a failed peer appears in no answer, and with trust selection disabled the choice is exactly the closest candidates)")
-    ck.out.outside = ["the reply-merge half of the property (DhtNetworkManager::find_closest_nodes_local, handle_lookup_request, filter_response_nodes: async)",
-                      "DhtCoreEngine::handle_request caps (MAX_FIND_NODE_COUNT, K) and the async join/add/evict call sites", "layouts, bucket fills and counts other than the listed ones (counts up to 64 in the property; here <= 8)",
+    ck.out.bounds.append("reply merge (second sentence): DhtNetworkManager::find_closest_nodes_local and handle_lookup_request(FIND_NODE) on a manager whose table holds up to two peers (buckets 3 and 7, "
+                         "local id 0) and whose connected-peer book holds up to two arbitrary entries (present / connected / with or without address / possibly the local id / possibly the same peer as a table "
+                         "entry); bytes 1..30 of ids and key concrete, the rest symbolic; count <= 5; the requested node count of handle_lookup_request for all three lookup kinds")
+    ck.out.outside = ["reply merge with more than four known peers, fully symbolic 256-bit ids in the merge (the four-element sort does not finish within the cap), the value path of FIND_VALUE / GET replies (C03)",
+                      "the async join call sites", "layouts, bucket fills and counts other than the listed ones (counts up to 64 in the property; here <= 8)",
                       "tables that are not well-formed (the add/remove obligations show well-formedness is preserved)"]
-    ck.out.assumptions = ["XOR translation symmetry: the local id is fixed to 0; bucket indices and distances only depend on XORs of ids (the Kani kernel checks the index computation for arbitrary local ids)",
+    ck.out.assumptions = ["strings are abstract identities; hex(NodeId) is an injective function of the id whose values never coincide with a peer id (a peer id that is the hex of another peer's DHT key needs a hash preimage); "
+                          "distinct connected peers have distinct DHT keys (collision-free hash)", "XOR translation symmetry: the local id is fixed to 0; bucket indices and distances only depend on XORs of ids (the Kani kernel checks the index computation for arbitrary local ids)",
                           "single-threaded execution"]
     ck.out.trusted.append("z3 4.8.12 / z3 5.1 / cvc5 1.0 portfolio")
     return ck.finish("./check C02 --tier " + tier)
